@@ -38,7 +38,7 @@ def concretize(v, lo, hi):
 
 
 def mk_iter_pool(kind, n, tier='quick'):
-    TAPE = 2 * (n + 1)   # two parallel runs, each needs ceil(log2 k) bits per scheduling choice
+    TAPE = 2 * sum((k - 1).bit_length() for k in range(2, n + 1))   # two parallel runs, ceil(log2 k) bits per scheduling choice
     def body(env, chunksize, max_workers, fail_at, **kw):
         from vf import rt
         chunksize = concretize(chunksize, 1, 2)
